@@ -325,7 +325,7 @@ func run(c Case) vkit.Result {
 		if (cy.End == "close" || cy.End == "close-busy") && !closed {
 			return vkit.Failf("cycle %d: clean shutdown did not complete (stderr: %s)", ci, tail(stderr.String()))
 		}
-		if time.Since(started) > 60*time.Second {
+		if time.Since(started) > 900*time.Second {
 			return vkit.Failf("cycle %d took %v", ci, time.Since(started))
 		}
 		if cy.End != "close" && acksThisCycle > 0 && (inflightAtEnd > 0 || cy.End == "selfkill") {
